@@ -62,6 +62,15 @@ def dimP : P Dim := do
   | "OneDimensional" => pure .one | "TwoDimensional" => pure .two
   | _ => fail
 
+/-- Coordinates so small (or large) that products of coordinate differences underflow (overflow): Shewchuk's
+adaptive predicates behind `RobustKernel` and the crossing-point computation of `line_intersection` are not
+exact / accurate there (known finding K10, see `Ops/C11.lean`). -/
+def underflowRange (ps : List Pt) : Bool :=
+  let tiny : Rat := pow2 (-400)
+  let huge : Rat := pow2 400
+  ps.any (fun p => (p.x != 0 && rabs p.x < tiny) || (p.y != 0 && rabs p.y < tiny) ||
+    rabs p.x > huge || rabs p.y > huge)
+
 /-- `C01.dims <G> => <dimensions> <boundary_dimensions> <is_empty>` — the `HasDimensions` impls that feed
 `compute_disjoint` (the disjoint-envelope shortcut). For valid geometries the verdict also demands that they equal
 what the specification derives from point location (max dimension of the parts). -/
@@ -70,6 +79,8 @@ def handleDims (inp out : List String) : String :=
   match P.run geometry inp, P.run pout out with
   | some g, some (d, bd, e) =>
     let same := d == dims g && bd == boundaryDims g && e == isEmptyEnum g
+    -- `Triangle::dimensions` asks the robust orientation predicate, which is not exact on subnormal-range coordinates (K10)
+    if !same && underflowRange (coordsIter g) then skip "underflow-range:orientation-inexact" else
     -- specification for valid geometries: what the matrix against a far-away point must show
     let prop :=
       if !inDomain g then "PASS" else
@@ -83,15 +94,6 @@ def handleDims (inp out : List String) : String :=
 
 
 /-! ### `C01.impl`: the model of the implementation against the implementation -/
-
-/-- Coordinates so small (or large) that products of coordinate differences underflow (overflow): Shewchuk's
-adaptive predicates behind `RobustKernel` and the crossing-point computation of `line_intersection` are not
-exact / accurate there (known finding K10, see `Ops/C11.lean`). -/
-def underflowRange (ps : List Pt) : Bool :=
-  let tiny : Rat := pow2 (-400)
-  let huge : Rat := pow2 400
-  ps.any (fun p => (p.x != 0 && rabs p.x < tiny) || (p.y != 0 && rabs p.y < tiny) ||
-    rabs p.x > huge || rabs p.y > huge)
 
 /-- a rational that is a finite binary64 value -/
 def isF64 (q : Rat) : Bool := roundF64 q == q
